@@ -30,3 +30,10 @@ VARIANTS = [
     v("c01-twin-comment", "    n = y.shape[0]\n", "    # length of the series\n\n    n = len(y)\n", expect="silent"),
     v("c01-twin-factor", "c[i] = (-4 * lmda - d[i1] * c[i1] * e[i1]) / d[i]", "c[i] = -(4 * lmda + c[i1] * d[i1] * e[i1]) / d[i]", expect="silent"),
 ]
+
+VARIANTS += [
+    v("c01-alias", "    d = z.copy()\n", "    d = z\n", note="work arrays share memory"),
+    v("c01-clamp", "    n = y.shape[0]\n    m = n - 1\n", "    n = y.shape[0]\n    m = n - 1\n    if lmda > 1e7:\n        lmda = 1e7\n", note="lambda silently clamped"),
+    v("c01-special-case", "    z[0] = w[0] * y[0]\n", "    z[0] = w[0] * y[0]\n    if w[1] == 0.0:\n        d[0] = d[0] + 1e-9\n", note="special-casing a zero weight"),
+    v("c01-float32", "    z = zeros(n)\n", "    z = zeros(n, dtype=float32)\n", note="narrow work array"),
+]
